@@ -10,4 +10,5 @@ import MiniconfVerif.Props.C02
 #print axioms MiniconfVerif.C02.indices_in_range
 #print axioms MiniconfVerif.C02.source_bookkeeping_is_model
 #print axioms MiniconfVerif.C02.source_containers_are_model
+#print axioms MiniconfVerif.C02.source_derive_is_model
 #print axioms MiniconfVerif.C02.source_leaves_are_model
